@@ -224,6 +224,18 @@ func clTerminateOnce(c *Ctx) {
 		c.Check(ok, acq, ret, "Acquire hands out a session only if its count (own increment result) shows it is not closed",
 			"an accessor can end up counted in a session that is already being destructed")
 	}
+	// every increment is either handed to the caller (as the session token) or taken back through Release
+	unpaired := afi.PathAvoiding(inc, func(x ssa.Instruction) bool {
+		if x == ssa.Instruction(inc) {
+			return true // looped back to the next attempt
+		}
+		r, isRet := x.(*ssa.Return)
+		return isRet && r.Block() != acq.Recover && (len(r.Results) != 1 || strip(afi.RetVal(r, 0)) != sessionOf(inc))
+	}, func(x ssa.Instruction) bool {
+		return p.IsCall(x, rel) && strip(callOf(x).Args[1]) == sessionOf(inc)
+	})
+	c.Check(unpaired == nil, acq, inc, "an increment that is not handed to the caller is taken back through Release (which may have to terminate the session)",
+		"the accessor that arrived at a closed session keeps its increment (or undoes it without the termination test): the session's count never returns to the flush offset, it is never destructed and everything retired into it and into every later session is never freed")
 	// back off: release and reload
 	for _, in := range p.CallSites(acq, rel) {
 		c.Check(afi.guardedByCmp(in, token.GTR, isValue(inc), isConstInt(offset)) && strip(callOf(in).Args[1]) == sessionOf(inc), acq, in, "Acquire backs off from a closed session by releasing its increment", "")
